@@ -20,9 +20,15 @@ PRIMES = [3, 5, 7, 11, 13]
 FORMS = ['direct', 'sumrange', 'inif', 'wholecol']
 
 
+def real_title(name, form):
+    """the second sheet is titled with digits that are not its position when the edges are IF-wrapped references"""
+    return '7' if name == 'T' and form == 'inif' else name
+
+
 def ref_text(src, dst, form):
     a = f'{dst[1]}{dst[2]}'
-    pre = '' if src[0] == dst[0] else dst[0] + '!'
+    t = real_title(dst[0], form)
+    pre = '' if src[0] == dst[0] else (t + '!' if t.isalpha() else "'" + t + "'!")
     if form == 'direct':
         return pre + a
     if form == 'sumrange':
@@ -200,7 +206,7 @@ def run_graphs(cases, stats):
         filler = 'E1' if form == 'wholecol' else 'E9'
         sheets['S'].setdefault(filler, 1)
         sheets['T'].setdefault(filler, 1)
-        spec = [('S', sheets['S']), ('T', sheets['T'])]
+        spec = [('S', sheets['S']), (real_title('T', form), sheets['T'])]
         bio = D.build_xlsx(spec)
         refv = ref_values(n, edges)
         cyclic = any(v is None for v in refv)
@@ -229,7 +235,7 @@ def run_graphs(cases, stats):
                 else:
                     whole = D.new_executor(cls)
                     for k, cell in enumerate(tmp):
-                        out = D.eval_cell(whole, cell[0], cell[1], str(cell[2]))
+                        out = D.eval_cell(whole, real_title(cell[0], form), cell[1], str(cell[2]))
                         if not (out[0] == 'VALUE' and out[1] == refv[k] and not D.is_blank(out[1])):
                             fail('whole_file_value', (refv[k], [list(cell), D.enc(out[1]) if out[0] == 'VALUE' else list(out)]),
                                  out[0] if out[0] != 'VALUE' else 'VALUE_MISMATCH')
@@ -269,9 +275,9 @@ def run_graphs(cases, stats):
                 if mode == 'num':
                     ecell = D.Cell(TIDX[cell[0]], ord(cell[1]) - 65, cell[2] - 1)
                 elif mode == 'a1':
-                    ecell = D.Cell(cell[0], cell[1], str(cell[2]))
+                    ecell = D.Cell(real_title(cell[0], form), cell[1], str(cell[2]))
                 else:
-                    ecell = D.Cell(cell[0], cell[1], str(cell[2]))
+                    ecell = D.Cell(real_title(cell[0], form), cell[1], str(cell[2]))
                     whole.get_cell(ecell)   # the caller's object has been normalised (and filled) by an Executor
                 p = D.Parser().disable_safety_check().set_excel_file_path(bio)
                 bio.seek(0)
@@ -309,7 +315,7 @@ def run_graphs(cases, stats):
                 bad = False
                 for j in sorted(rs):
                     cj = tmp[j]
-                    out = D.eval_cell(ex, cj[0], cj[1], str(cj[2]))
+                    out = D.eval_cell(ex, real_title(cj[0], form), cj[1], str(cj[2]))
                     stats['evaluations'] += 1
                     if not (out[0] == 'VALUE' and out[1] == refv[j] and not D.is_blank(out[1])):
                         fail('entry_value', (refv[j], [list(cell), mode, list(cj), D.enc(out[1]) if out[0] == 'VALUE' else list(out)]),
